@@ -514,7 +514,26 @@ func (g *vcgen) havocAll() {
 		names = append(names, n)
 	}
 	sort.Strings(names)
+	events := map[string]bool{}
 	for _, n := range names {
+		for _, pre := range []string{"G.cnt.", "G.first.", "G.last."} {
+			if strings.HasPrefix(n, pre) {
+				events[strings.TrimPrefix(n, pre)] = true
+			}
+		}
+	}
+	var evs []string
+	for e := range events {
+		evs = append(evs, e)
+	}
+	sort.Strings(evs)
+	for _, e := range evs {
+		g.havocEvent(e)
+	}
+	for _, n := range names {
+		if strings.HasPrefix(n, "G.cnt.") || strings.HasPrefix(n, "G.first.") || strings.HasPrefix(n, "G.last.") || strings.HasPrefix(n, "G.ret.") {
+			continue
+		}
 		// monitor bookkeeping, defer flags and range iterators are local to this activation
 		if strings.HasPrefix(n, "G.held.") || strings.HasPrefix(n, "G.bcast.") || strings.HasPrefix(n, "G.wold.") || strings.HasPrefix(n, "G.armed.") || strings.HasPrefix(n, "G.visited.") || strings.HasPrefix(n, "old:") {
 			continue
@@ -531,6 +550,18 @@ func (g *vcgen) havocAll() {
 	}
 }
 
+// havocEvent forgets the ghost record of one event across a call that may emit it
+func (g *vcgen) havocEvent(ev string) {
+	g.eventVars(ev)
+	g.havocNamed("G.first." + ev) // uses the counter as it is before the call
+	g.havocNamed("G.cnt." + ev)
+	g.havocNamed("G.last." + ev)
+	if _, ok := g.varSort["G.ret."+ev]; ok {
+		g.havocNamed("G.ret." + ev)
+	}
+	g.havocNamed("G.now")
+}
+
 func (g *vcgen) havocNamed(n string) {
 	if _, ok := g.varSort[n]; !ok {
 		return // never used by this function: its base symbol stands for any value anyway, but a later first use must not see the pre-call value
@@ -541,6 +572,20 @@ func (g *vcgen) havocNamed(n string) {
 		nv := g.havocVar(n)
 		g.assume(fmt.Sprintf("(>= %s %s)", nv, old))
 	case n == "G.now" || strings.HasPrefix(n, "G.cnt."):
+		old := g.get(g.st, n)
+		nv := g.havocVar(n)
+		g.assume(fmt.Sprintf("(>= %s %s)", nv, old))
+	case strings.HasPrefix(n, "G.first."):
+		// occurrences inside a callee come after everything recorded so far, and only matter if none happened yet
+		ev := strings.TrimPrefix(n, "G.first.")
+		g.stateVar("G.now", "Int")
+		cur := g.get(g.st, n)
+		fv := g.freshConst(n, "Int")
+		g.assume(fmt.Sprintf("(> %s %s)", fv, g.get(g.st, "G.now")))
+		g.set(n, fmt.Sprintf("(ite (= %s %s) %s %s)", g.get(g.st, "G.cnt."+ev), g.get(g.old0, "G.cnt."+ev), fv, cur))
+	case strings.HasPrefix(n, "G.last."):
+		ev := strings.TrimPrefix(n, "G.last.")
+		_ = ev
 		old := g.get(g.st, n)
 		nv := g.havocVar(n)
 		g.assume(fmt.Sprintf("(>= %s %s)", nv, old))
@@ -581,8 +626,22 @@ func (g *vcgen) havocEffectsOf(eff *Effects, who string) {
 		names = append(names, n)
 	}
 	sort.Strings(names)
+	doneEv := map[string]bool{}
 	for _, n := range names {
 		if n == "G.alloc" {
+			continue
+		}
+		isEv := false
+		for _, pre := range []string{"G.cnt.", "G.first.", "G.last."} {
+			if strings.HasPrefix(n, pre) {
+				isEv = true
+				if ev := strings.TrimPrefix(n, pre); !doneEv[ev] {
+					doneEv[ev] = true
+					g.havocEvent(ev)
+				}
+			}
+		}
+		if isEv {
 			continue
 		}
 		// make sure the variable exists so that later reads see the post-call version
@@ -895,11 +954,7 @@ func (g *vcgen) applyContract(fc *FuncContract, fn *ssa.Function, sig *types.Sig
 			g.havocTarget(m, envPre, fn)
 		}
 		for _, ev := range fc.Emits {
-			g.eventVars(ev)
-			g.havocNamed("G.cnt." + ev)
-			g.havocNamed("G.first." + ev)
-			g.havocNamed("G.last." + ev)
-			g.havocNamed("G.now")
+			g.havocEvent(ev)
 		}
 		// ghost events are not part of a frame: whatever the callee's body may emit (computed, not declared)
 		// is forgotten here, so callers never count with stale counters
@@ -918,15 +973,7 @@ func (g *vcgen) applyContract(fc *FuncContract, fn *ssa.Function, sig *types.Sig
 			}
 			sort.Strings(names)
 			for _, ev := range names {
-				if _, used := g.varSort["G.cnt."+ev]; !used {
-					continue // this unit never looks at the event
-				}
-				g.havocNamed("G.cnt." + ev)
-				g.havocNamed("G.first." + ev)
-				g.havocNamed("G.last." + ev)
-				if _, ok := g.varSort["G.ret."+ev]; ok {
-					g.havocNamed("G.ret." + ev)
-				}
+				g.havocEvent(ev)
 			}
 			if len(names) > 0 {
 				g.stateVar("G.now", "Int")
@@ -971,10 +1018,7 @@ func (g *vcgen) havocTarget(m *CExpr, env *cenv, fn *ssa.Function) {
 		switch m.Args[0].Name {
 		case "events":
 			for _, a := range m.Args[1:] {
-				g.eventVars(a.Name)
-				g.havocNamed("G.cnt." + a.Name)
-				g.havocNamed("G.first." + a.Name)
-				g.havocNamed("G.last." + a.Name)
+				g.havocEvent(a.Name)
 			}
 			g.havocNamed("G.now")
 			return
@@ -1072,10 +1116,14 @@ func (g *vcgen) havocTarget(m *CExpr, env *cenv, fn *ssa.Function) {
 		g.unsupported("modifies %s: not a struct", m)
 		return
 	}
+	bterm := b.term
+	if b.addr != "" {
+		bterm = b.addr
+	}
 	for i := 0; i < st.NumFields(); i++ {
 		if st.Field(i).Name() == m.Name {
-			g.frameCheckField(b.term, t, i)
-			g.havocFieldAt(b.term, t, i)
+			g.frameCheckField(bterm, t, i)
+			g.havocFieldAt(bterm, t, i)
 			return
 		}
 	}
@@ -1142,7 +1190,11 @@ func (g *vcgen) frameCheckField(base string, st types.Type, idx int) {
 		if !sameStruct(b.typ, st) {
 			continue
 		}
-		allowed = append(allowed, fmt.Sprintf("(= %s %s)", base, b.term))
+		bt := b.term
+		if b.addr != "" {
+			bt = b.addr // an embedded struct: the location is inside it
+		}
+		allowed = append(allowed, fmt.Sprintf("(= %s %s)", base, bt))
 	}
 	g.oblige("frame", "store to "+typeShort(st)+"."+fname, "(or "+strings.Join(allowed, " ")+")", "store outside the modifies clause")
 }
@@ -1354,6 +1406,7 @@ func (g *vcgen) builtin(v ssa.Value, b *ssa.Builtin, c *ssa.CallCommon, args []s
 			return []string{fmt.Sprintf("(slen %s)", args[0])}
 		case *types.Map:
 			_, _, ln := g.mapArrs(t)
+			g.assume(fmt.Sprintf("(>= (select %s %s) 0)", g.get(g.st, ln), args[0]))
 			return []string{fmt.Sprintf("(ite (= %s 0) 0 (select %s %s))", args[0], g.get(g.st, ln), args[0])}
 		case *types.Chan:
 			r := g.freshConst("chanlen", "Int")
@@ -1615,6 +1668,10 @@ func (g *vcgen) emitEvents(c *ssa.CallCommon, args []string, results []string, r
 		if ret && len(results) > 0 {
 			g.stateVar("G.ret."+ev.Name, g.s.sortOf(c.Signature().Results().At(0).Type()))
 			g.stateVar("G.fret."+ev.Name, g.s.sortOf(c.Signature().Results().At(0).Type()))
+			if g.retTypes == nil {
+				g.retTypes = map[string]types.Type{}
+			}
+			g.retTypes[ev.Name] = c.Signature().Results().At(0).Type()
 		}
 		cond := "true"
 		if ev.When != nil {
@@ -1640,6 +1697,9 @@ func (g *vcgen) emitEvents(c *ssa.CallCommon, args []string, results []string, r
 			env := &cenv{g: g, vars: vars, cur: g.st, pkg: pkg, ctx: "event " + ev.Name}
 			t, err := env.EvalBool(ev.When)
 			if err != nil {
+				if strings.Contains(err.Error(), "the event never occurs in this function") {
+					continue // the predicate compares with the result of a call this function never makes
+				}
 				g.unsupported("event %s: %v", ev.Name, err)
 				continue
 			}
@@ -1653,7 +1713,8 @@ func (g *vcgen) emitEvents(c *ssa.CallCommon, args []string, results []string, r
 		g.set("G.now", fmt.Sprintf("(+ %s 1)", now))
 		nn := g.get(g.st, "G.now")
 		g.set("G.cnt."+ev.Name, fmt.Sprintf("(ite %s (+ %s 1) %s)", cond, cnt, cnt))
-		g.set("G.first."+ev.Name, fmt.Sprintf("(ite (and %s (= %s 0)) %s %s)", cond, cnt, nn, first))
+		// first(E): time of the first occurrence during this activation
+		g.set("G.first."+ev.Name, fmt.Sprintf("(ite (and %s (= %s %s)) %s %s)", cond, cnt, g.get(g.old0, "G.cnt."+ev.Name), nn, first))
 		g.set("G.last."+ev.Name, fmt.Sprintf("(ite %s %s %s)", cond, nn, last))
 		if ret && len(results) > 0 {
 			rn := "G.ret." + ev.Name
